@@ -86,6 +86,28 @@ def main():
     if os.path.exists(os.path.join(src, 'README.txt')):
         shutil.copy(os.path.join(src, 'README.txt'), os.path.join(dst, 'README.txt'))
         meta['needs_to_manifest'] = open(os.path.join(src, 'README.txt')).read()[:3000]
+    if os.environ.get('SEEDCHECK_SCRATCH') == '1':
+        # batch re-verification mode: run the checks against a scratch worktree (VERIF_REPO) so that /repo stays untouched and
+        # other checks can run at the same time
+        wt2 = tempfile.mkdtemp(prefix='vfseedrun-', dir='/tmp')
+        os.rmdir(wt2)
+        assert sh(['git', '-C', '/repo', 'worktree', 'add', '-q', '--detach', wt2, 'HEAD']).returncode == 0
+        results = {}
+        try:
+            assert sh(['git', '-C', wt2, 'apply', '--whitespace=nowarn', patch]).returncode == 0
+            for p in props:
+                t0 = time.time()
+                r = sh([sys.executable, os.path.join(VERIF, 'vf', 'check.py'), p, '--tier', 'quick'], env=dict(os.environ, VERIF_NO_EVIDENCE='1', VERIF_REPO=wt2))
+                keys = sorted({l.split()[1].replace('key=', '') for l in r.stdout.splitlines() if l.startswith('violation key=')})
+                results[p] = dict(exit=r.returncode, caught=(r.returncode == 1), keys=keys[:12], wall_s=round(time.time() - t0, 1))
+                print('%s: %s exit=%d keys=%s' % (p, 'CAUGHT' if r.returncode == 1 else 'MISSED', r.returncode, ', '.join(keys)[:300]))
+        finally:
+            sh(['git', '-C', '/repo', 'worktree', 'remove', '--force', wt2])
+            shutil.rmtree(wt2, ignore_errors=True)
+        meta['checks_quick'] = results
+        meta['repo_head'] = sh(['git', '-C', '/repo', 'rev-parse', '--short', 'HEAD']).stdout.strip()
+        json.dump(meta, open(os.path.join(dst, 'meta.json'), 'w'), indent=1)
+        return 0
     # run the checks against /repo with the patch applied, undo straight afterwards
     st = sh(['git', '-C', '/repo', 'status', '--porcelain'])
     if st.stdout.strip():
